@@ -51,6 +51,9 @@ def MI(var, kmax, sym=0, tiers=QT, name=None, **kw):
     return S(name or ('acc_%s_k%d%s' % (var, kmax, '_len' if sym else '')), 'h_dec_mi', (V[var], kmax, 0, sym), cap=72, dec=VDEC[var], tiers=tiers,
              bound=MI_BOUND % (var, ', length field of the last attribute symbolic' if sym else '', kmax), cdefs={'VP_UTF8_LATIN1': 1}, **o)
 
+def LEN(idx, nm, tiers):
+    return S('len_' + nm, 'h_dec_len', (idx, 0, 0, 0), cap=40, dec=2, tiers=tiers, solver='cadical', mem_gb=6, cdefs={'VP_UTF8_LATIN1': 1},
+             bound='one %s attribute: header, symbolic length field, payload of the required size symbolic; no key' % nm)
 ANY_BOUND = 'arbitrary %d-byte datagram (only the header length field is fixed to the valid value %d), key of 1..%d symbolic bytes'
 def ANY(entry, name, n, kmax, tiers, dec, **kw):
     o = dict(solver='cadical', safety_is_property=True, mem_gb=10, timeout_s=900); o.update(kw)
@@ -64,6 +67,8 @@ stun_instances = rt_instances() + [
     S('enc_err', 'h_enc_err', solver='cadical', bound='error class 3..6 and number 0..99 symbolic, empty reason phrase'),
     S('dec_err_0', 'h_dec_err', (0, 0, 0, 0), dec=1, bound='class and number bytes arbitrary, reason phrase of 0 bytes'),
     S('dec_err_3', 'h_dec_err', (3, 0, 0, 0), dec=1, bound='class and number bytes arbitrary, reason phrase of 3 ASCII bytes (no NUL)'),
+    LEN(0, 'priority', QT), LEN(1, 'ice_controlling', QT),
+    LEN(2, 'ice_controlled', T), LEN(3, 'use_candidate', T), LEN(4, 'channel_number', T), LEN(5, 'lifetime', T), LEN(6, 'requested_transport', T), LEN(7, 'reservation_token', T), LEN(8, 'change_request', T),
     MI('mi', 2, sym=1), MI('fp', 0, sym=1),
     MI('mi', 1), MI('mi_fp', 2), MI('prio_mi', 1), MI('user_mi', 1), MI('xaddr_mi', 1), MI('unk_mi', 1), MI('mi_prio', 1), MI('mi_mi', 1), MI('fp', 1), MI('mi_fp', 0),
     MI('mi', 0, sym=1, tiers=T), MI('fp', 1, sym=1, tiers=T), MI('mi', 8, sym=1, tiers=T), MI('mi_fp', 2, sym=1, tiers=T), MI('prio_mi', 3, sym=1, tiers=T), MI('xaddr_mi', 2, sym=1, tiers=T),
@@ -105,6 +110,7 @@ SPEC = dict(
         'ports and error codes are per-instance constants in the round trips (0 = attribute absent); symbolic ports / codes in enc_addr_*, dec_addr_*, enc_err, dec_err_*',
         'acceptance: datagrams of 44..72 bytes with a fixed attribute layout ([MI], [MI,FP], [X,MI] for X in PRIORITY/USERNAME/XOR-MAPPED/unknown, [MI,PRIORITY], [MI,MI], [FP]); '
         'header, payload and the length field of the last attribute symbolic; key 1..2 (thorough: 8) symbolic bytes or empty',
+        'length validation: one fixed-size attribute with symbolic length field (PRIORITY, ICE-CONTROLLING in quick; seven more types in thorough)',
         'safety: arbitrary datagrams of 20 and 24 bytes (thorough: 28) with a valid header length field, every size 0..19, one wrong length field; peekType on 20/28 bytes',
         'CRC-32: all 256 table entries; all byte strings of length <= 6 (thorough: 8)',
         'HMAC: key lengths 0, 1, 63, 64, 65, 70 (SHA-1) and 16, 64, 65 (MD5) in quick; 2, 20, 32, 62, 66, 67, 100, 128, 300 more in thorough; key and text bytes symbolic, text 0..4 bytes',
